@@ -271,13 +271,17 @@ pub fn run_scene(s: &Scene, door: char) -> Output {
         Tgt::Cb(c)
     };
     let mut total = [0usize; 8];
+    // ONE context for the whole history (only `depth_sort` is switched between calls), so that what is
+    // read back at the end is what the library ACCUMULATED in `ctx.stats` over the calls
+    let mut ctx = make_ctx(s, s.hist.first().map(|h| h.0).unwrap_or(s.sort));
     for (sort, idx) in &s.hist {
-        let ctx = make_ctx(s, *sort);
+        ctx.depth_sort = make_ctx(s, *sort).depth_sort;
         let tris: Vec<Tri<usize>> = idx.iter().map(|&i| Tri(s.tris[i])).collect();
         let discard = |px: f32, py: f32| variant == 1 && ((px.floor() as i64 + py.floor() as i64) % 2 == 0);
         macro_rules! go {
             ($verts:expr, $fs:expr, $VT:ty, $AT:ty) => {{
-                let verts: Vec<$VT> = $verts;
+                // a call that submits no triangle submits no vertex either
+                let verts: Vec<$VT> = if tris.is_empty() { vec![] } else { $verts };
                 let vs = |v: $VT, _: ()| v;
                 let shader = Shader::new(vs, $fs);
                 macro_rules! with_target {
@@ -414,11 +418,11 @@ pub fn run_scene(s: &Scene, door: char) -> Output {
                 Color4f
             );
         }
+    }
+    {
         let st = ctx.stats.borrow();
         let add = [st.calls as usize, st.prims.i, st.prims.o, st.verts.i, st.verts.o, st.frags.i, st.frags.o, 0];
-        for j in 0..7 {
-            total[j] += add[j];
-        }
+        total[..7].copy_from_slice(&add[..7]);
     }
     total[7] = calls.get();
     match tgt {
